@@ -345,3 +345,29 @@ def mem_theory(lty, prefix):
         z3.ForAll([l, x], z3.Implies(lty.len(l) <= 0, z3.Not(Mem(l, x))), patterns=[Mem(l, x)]),
     ]
     return Mem, ax
+
+
+LEMMAS.update({
+    "def.Mem(first element)": "a non-empty list contains its first element (instance of the introduction rule of list membership)",
+    "L2.perc_trap(empty space)": "the space fixing no variable is a well-formed trap space over vars(N) of every network (trivial: nothing can leave the whole state space)",
+})
+
+LEMMAS.update({
+    "L1.perc_wf": "S well-formed over vars(N)  ==>  Perc(N,S) is well-formed over vars(N)   [Lean: perc_sub / perc_closed]",
+    "L1.strict_lfp_extends+closed": "L1.strict_lfp_extends and L1.strict_lfp_closed for the space being percolated (both Lean: strictLfp_extends, strictLfp_closed)",
+    "L1.strict_lfp_least+evalon_monotone": "L1.strict_lfp_least (Lean: strictLfp_least) together with L1.evalon_monotone (Lean: evalOn_mono) for the current result",
+    "L2.max_trap_facts+L3.no_max_trap_in_fixed_point": "L2.max_trap_facts for every enumerated maximal trap space, and L3.no_max_trap_in_fixed_point (a space fixing every variable has none)",
+    "L3.fixed_point_node": "a node whose space fixes every variable contains exactly one state, which is its attractor: the list [space] covers the node (L3, trivial)",
+    "L7.empty_nfvs": "no negative feedback vertex in the node's network => every attractor is a fixed point, which lies in a successor when the node has one (L7, cited: Richard 2010)",
+    "L4+L5.max_traps_global+restricted": "L4+L5.max_traps_global (call on the global net with ensure = node space) and L4+L5.max_traps_restricted (call on the restricted net)",
+    "L4+L5.min_traps_restricted+L3.min_trap_facts": "L4+L5.min_traps_restricted for the call in skip_to_minimal / skip_remaining, and L3.min_trap_facts for every enumerated element",
+    "L4+L5.min_traps_of_percolated_root+L3.min_trap_facts": "the same for the percolated network of the root node (expand_minimal_spaces)",
+    "L3.min_trap_facts(inside)": "L3.min_trap_facts for those minimal trap spaces of an ancestor space that lie inside the node (a minimal trap space inside S is minimal for S)",
+    "L10.key_injective(unique nodes)": "L10.key_injective applied to the spaces of two nodes: equal keys => equal spaces => (I-key) the same node",
+    "L5.restrict_composes+restrict_encodes+empty_encodes": "L5.restrict_composes, L5.restrict_encodes and L5.empty_encodes for the node's percolated Petri net",
+    "L7.retained_set+def.lift": "L7 (cited: Klarner & Siebert 2015; Richard 2010): every attractor of the node that meets no avoided region contains a deadlock of the "
+                                "retained-set-reduced net; def.lift: completing a state of the percolated network with the node's fixed values (definition of CovRed)",
+    "L8.fwd_closure_least": "Fwd(g,p) is contained in every set that contains p and is closed under all var_post_out (least-ness of the reachability closure; Lean: Biobalm/Dynamics.lean)",
+    "def.AllReachableExpanded": "introduction rule: a set R containing the start node, all of whose members are expanded and closed under the edge relation, witnesses AllReachableExpanded",
+    "typing.vertex_sets_of_graph": "every vertex set built from the graph's operations is a subset of its state space, so its cardinality is bounded by the number of states (termination variant)",
+})
